@@ -457,6 +457,11 @@ def run_check(chk, argv=None):
         out = subprocess.run([python_exe(), script, chk.PROP, '--replay', path], env=env,
                              capture_output=True, text=True, timeout=900)
         confirmed = out.returncode == 1 and f'VIOLATION property={chk.PROP}' in out.stdout
+        if not confirmed and sig.endswith('/hang') and out.returncode == 0:
+            # the run exceeded the wall-clock guard once but completes in a fresh process:
+            # the machine was slow, not the code under test
+            total['stats']['unconfirmed_slow_run'] += 1
+            continue
         if not confirmed:
             confirm_failures.append({'signature': sig, 'replay': path, 'rc': out.returncode,
                                      'stdout': out.stdout[-800:], 'stderr': out.stderr[-800:]})
